@@ -53,10 +53,12 @@ def main():
         ids = sorted(os.listdir(os.path.join(VERIF, "seeded")))
     ids = [i for i in ids if os.path.exists(os.path.join(VERIF, "seeded", i, "meta.json"))]
     caught = 0
+    allres = {}
     with ThreadPoolExecutor(max_workers=8) as ex:
         for sid, prop, res, err in ex.map(lambda s: run_seed(s, allchecks, tier), ids):
             if err:
                 print("%-10s %s" % (sid, err)); continue
+            allres[sid] = {"property": prop, "results": res}
             own = res.get(prop, "nocheck")
             others = [k for k, v in res.items() if k != prop and v.startswith("CAUGHT")]
             hit = own.startswith("CAUGHT") or bool(others)
@@ -66,5 +68,7 @@ def main():
                 if v.startswith("ERROR"):
                     print("      %s %s" % (k, v))
     print("caught %d / %d" % (caught, len(ids)))
+    if "--json" in args:
+        json.dump({"tier": tier, "all_checks": allchecks, "seeds": allres}, open(os.path.join(VERIF, "seeded", "RESULTS.json"), "w"), indent=1, sort_keys=True)
 
 main()
